@@ -1,5 +1,5 @@
 SPECIFICATION Spec
 CONSTANT Deep = TRUE
 INVARIANTS TypeOK NeverForwardSystemLocalOrPeers UserKeyspaceForwarded OnlyUseAndSelectLocal
-           LookAlikeForwarded QualifierWins SpellingIrrelevant ExecuteFollowsPrepare KeyspaceTracksUse
+           LookAlikeForwarded ExecuteFollowsPrepare KeyspaceTracksUse
            Export
